@@ -169,7 +169,7 @@ class Sig(PyModel):
         a = fnode.args
         pos = list(a.posonlyargs) + list(a.args)
         defaults = [None] * (len(pos) - len(a.defaults)) + list(a.defaults)
-        it = Interp(analysis, module, {}, world=world)
+        it = Interp(analysis, module, {}, world=world, inline_pkg=True)
 
         def ann(node):
             if node is None:
@@ -334,7 +334,10 @@ class Outcome:
 
 
 class Interp:
-    max_depth = 14
+    @property
+    def max_depth(self):
+        """Bound on nested inlining (a runaway guard); a world may raise it (whole-workbook scenarios nest cell evaluations)."""
+        return getattr(self.world, 'max_depth', 14)
 
     def __init__(self, analysis, module, env, effect_receivers=(), self_class=None,
                  isinstance_fn=None, call_models=None, raise_classifier=None, inline_pkg=False, depth=0,
@@ -382,7 +385,13 @@ class Interp:
 
     def block(self, stmts):
         for s in stmts:
-            self.stmt(s)
+            try:
+                self.stmt(s)
+            except Unmodelled as exc:
+                if not getattr(exc, 'located', False) and exc.args and getattr(s, 'lineno', None):
+                    exc.located = True
+                    exc.args = (f'{exc.args[0]} [while interpreting {getattr(self.m, "name", "?")}:{s.lineno}]',) + tuple(exc.args[1:])
+                raise
 
     def stmt(self, s):
         self.world.steps += 1
@@ -591,6 +600,8 @@ class Interp:
             base = self.ev(t.value)
             if isinstance(base, (dict, list)):
                 base[self.ev(t.slice)] = val
+            elif isinstance(base, Rec) and self._dunder(base, '__setitem__', self.ev(t.slice), val)[0]:
+                pass
             else:
                 raise Unmodelled(f'subscript store on {base!r}')
         else:
@@ -606,6 +617,9 @@ class Interp:
             # abstract value instance with a known payload: truth of the payload (ExcelType.__bool__)
             if v.f.get('truthy') is not None:
                 return bool(v.f['truthy'])
+            if '__native__' in v.f and isinstance(v.f.get('cls'), str) and self._find_method(v.f['cls'], '__bool__')[1] is None \
+                    and self._find_method(v.f['cls'], '__len__')[1] is None:
+                return bool(v.f['__native__'])
             if self.dunder_truth and isinstance(v.f.get('cls'), str):
                 cm_, meth_ = self.a.res.class_attr(v.f['cls'], '__bool__')
                 if isinstance(meth_, ast.FunctionDef):
@@ -911,6 +925,13 @@ class Interp:
                 cm_, meth_ = self._find_method(recv.f['cls'], fn.attr)
                 if meth_ is not None:
                     return self._call_method(recv, recv.f['cls'], cm_, meth_, args, kwargs)
+                if '__native__' in recv.f and hasattr(recv.f['__native__'], fn.attr) and not fn.attr.startswith('__'):
+                    # instance of a subclass of a builtin container: the inherited builtin method on the stored items
+                    try:
+                        res_ = getattr(recv.f['__native__'], fn.attr)(*args, **kwargs)
+                    except (KeyError, IndexError, ValueError, TypeError) as exc:
+                        raise ExcRaised(Ref(f'builtin:{type(exc).__name__}'))
+                    return list(res_) if fn.attr in ('items', 'keys', 'values') else res_
             if isinstance(recv, Ref) and self._is_pkg_class(recv.ref) and self.depth < self.max_depth:
                 key_ = f'{recv.ref}.{fn.attr}'
                 if key_ in self.call_models:
@@ -924,6 +945,16 @@ class Interp:
                     if self.inline_pkg or self.depth > 0 or self._decorated(meth_, 'classmethod'):
                         return self._call_method(None, recv.ref, cm_, meth_, args, kwargs)
             if isinstance(recv, _PURE_TYPES) and all(_concrete(a_) for a_ in args) and all(_concrete(v_) for v_ in kwargs.values()):
+                try:
+                    return getattr(recv, fn.attr)(*args, **kwargs)
+                except Exception as exc:
+                    raise ExcRaised(_exc_ref(exc))
+            if isinstance(recv, str) and fn.attr == 'format' and any(isinstance(a_, Rec) for a_ in list(args) + list(kwargs.values())):
+                conv_ = lambda v_: self._builtin_on_rec('str', [v_])[1] if isinstance(v_, Rec) and isinstance(v_.f.get('cls'), str) else v_   # noqa: E731
+                args = [conv_(a_) for a_ in args]
+                kwargs = {k_: conv_(v_) for k_, v_ in kwargs.items()}
+            if isinstance(recv, str) and hasattr(str, fn.attr) and not fn.attr.startswith('__') \
+                    and all(_concrete(a_) for a_ in args) and all(_concrete(v_) for v_ in kwargs.values()):
                 try:
                     return getattr(recv, fn.attr)(*args, **kwargs)
                 except Exception as exc:
@@ -976,10 +1007,14 @@ class Interp:
                 ref = callee.ref
             elif isinstance(callee, (BoundMethod, LambdaVal, Closure, RawFunc, Partial)) or (isinstance(callee, PyModel) and callable(callee)):
                 return self.invoke(callee, args, kwargs)
+            elif isinstance(callee, Rec) and isinstance(callee.f.get('cls'), str) and self._find_method(callee.f['cls'], '__call__')[1] is not None:
+                return self.invoke(callee, args, kwargs)
         elif isinstance(fn, ast.Attribute):
             callee = self._safe_ev(fn)
             if isinstance(callee, Ref) and not callee.ref.startswith('ext:'):
                 ref = callee.ref
+            elif isinstance(callee, Rec) and isinstance(callee.f.get('cls'), str) and self._find_method(callee.f['cls'], '__call__')[1] is not None:
+                return self.invoke(callee, args, kwargs)
         if ref is not None:
             pass
         elif isinstance(fn, ast.Name) and fn.id in self.env:
@@ -989,6 +1024,8 @@ class Interp:
             elif callable(bound) and isinstance(bound, PyModel):
                 return bound(*args, **kwargs)
             elif isinstance(bound, (BoundMethod, Closure, RawFunc, Partial)):
+                return self.invoke(bound, args, kwargs)
+            elif isinstance(bound, Rec) and isinstance(bound.f.get('cls'), str) and self._find_method(bound.f['cls'], '__call__')[1] is not None:
                 return self.invoke(bound, args, kwargs)
             elif callable(bound) and isinstance(getattr(bound, '__self__', None), _PURE_TYPES) \
                     and all(_concrete(a_) for a_ in args) and all(_concrete(v_) for v_ in kwargs.values()):
@@ -1004,6 +1041,17 @@ class Interp:
                 if getattr(model_, 'wants_interp', False):
                     return model_(self, *args, **kwargs)     # a model expressed in terms of the interpreter's own operations
                 return model_(*args, **kwargs)
+        if ref in ('ext:copy.copy', 'ext:copy.deepcopy') and ref not in self.call_models and len(args) == 1:
+            return _copy_value(self, args[0], deep=ref.endswith('deepcopy'), memo={})
+        if ref == 'ext:collections.defaultdict' and ref not in self.call_models and len(args) <= 1 and not kwargs:
+            import collections as _collections
+            fac_ = args[0] if args else None
+            native_ = {'builtin:set': set, 'builtin:list': list, 'builtin:dict': dict, 'builtin:int': int, 'builtin:float': float, 'builtin:str': str}
+            if fac_ is None:
+                return _collections.defaultdict()
+            if isinstance(fac_, Ref) and fac_.ref in native_:
+                return _collections.defaultdict(native_[fac_.ref])
+            raise Unmodelled('collections.defaultdict with a factory that is not a builtin container type')
         if ref == 'ext:functools.partial' and ref not in self.call_models and args:
             return Partial(args[0], args[1:], kwargs)
         if ref in ('ext:operator.methodcaller', 'ext:operator.itemgetter', 'ext:operator.attrgetter') and ref not in self.call_models and args:
@@ -1124,6 +1172,31 @@ class Interp:
                 except AttributeError:
                     raise ExcRaised(Ref('builtin:AttributeError'))
             raise Unmodelled('getattr on a symbolic value')
+        if isinstance(fn, ast.Name) and fn.id == 'setattr' and fn.id not in self.env and len(args) == 3 and isinstance(args[1], str):
+            obj = args[0]
+            if isinstance(obj, Rec):
+                obj.set(args[1], args[2])
+                return None
+            if isinstance(obj, PyModel):
+                setattr(obj, args[1], args[2])
+                return None
+            if isinstance(obj, Ref) and self._is_pkg_class(obj.ref):
+                self.world.classattrs[(obj.ref, args[1])] = args[2]
+                return None
+            raise Unmodelled('setattr on a symbolic value')
+        if isinstance(fn, ast.Name) and fn.id == 'hasattr' and fn.id not in self.env and len(args) == 2 and isinstance(args[1], str):
+            obj = args[0]
+            if isinstance(obj, Rec) and isinstance(obj.f.get('cls'), str):
+                if args[1] in obj.f:
+                    return True
+                try:
+                    self._class_level_attr(obj, obj.f['cls'], args[1])
+                    return True
+                except (Unmodelled, ExcRaised):
+                    return False
+            if isinstance(obj, PyModel) or _concrete(obj):
+                return hasattr(obj, args[1])
+            raise Unmodelled('hasattr on a symbolic value')
         if isinstance(fn, ast.Name) and fn.id in ('filter', 'map') and fn.id not in self.env and len(args) == 2:
             seq = args[1]
             if isinstance(seq, (Opaque, Ref, Rec)):
@@ -1178,8 +1251,12 @@ class Interp:
             params = params[1:]
         defaults = fnode.args.defaults
         env = dict(self.env) if closure else {}
+        given_ = set(params[:len(args)]) | set(kwargs)
         for p_, d in zip(params[len(params) - len(defaults):], defaults):
-            sub = Interp(self.a, om, {}, isinstance_fn=self.isinstance_fn, call_models=self.call_models, world=self.world)
+            if p_ in given_:
+                continue
+            sub = Interp(self.a, om, {}, isinstance_fn=self.isinstance_fn, call_models=self.call_models, world=self.world,
+                         inline_pkg=self.inline_pkg, depth=self.depth + 1)
             env[p_] = sub.ev(d)
         for p_, a in zip(params, args):
             env[p_] = a
@@ -1245,6 +1322,11 @@ class Interp:
                 self.env, self.scopes, self.m, self.self_class, self.def_class, self.first_param = saved
         if isinstance(callee, RawFunc):
             return self._inline(callee.module, callee.fnode, list(args), kwargs)
+        if isinstance(callee, Rec) and isinstance(callee.f.get('cls'), str):
+            cm_c, call_c = self._find_method(callee.f['cls'], '__call__')
+            if call_c is not None:
+                return self._call_method(callee, callee.f['cls'], cm_c, call_c, list(args), kwargs)
+            raise ExcRaised(Ref('builtin:TypeError'))
         if isinstance(callee, Partial):
             if isinstance(callee.func, Ref) and callee.func.ref == 'ext:operator.methodcaller':
                 name_, rest_ = callee.args[0], list(callee.args[1:])
@@ -1435,6 +1517,14 @@ class Interp:
             return True, self.call_models[key_](recv, *args)
         cm, meth = self._find_method(cref, name)
         if meth is None:
+            if '__native__' in recv.f and name in ('__getitem__', '__setitem__', '__delitem__', '__contains__', '__len__', '__iter__'):
+                native_ = recv.f['__native__']
+                try:
+                    if name == '__iter__':
+                        return True, list(native_)
+                    return True, getattr(native_, name)(*args)
+                except (KeyError, IndexError, TypeError) as exc:
+                    raise ExcRaised(Ref(f'builtin:{type(exc).__name__}'))
             return False, None
         return True, self._call_method(recv, cref, cm, meth, list(args), {})
 
@@ -1700,6 +1790,13 @@ class Interp:
             inst = Rec(cls=ref)
         inst.f.setdefault('args', tuple(args))
         inst.f.setdefault('kwargs', kwargs)
+        builtin_base_ = self._builtin_container_base(ref)
+        if builtin_base_ is not None and '__native__' not in inst.f:
+            cm_i, init_i = self._find_method(ref, '__init__')
+            try:
+                inst.f['__native__'] = builtin_base_(*args, **kwargs) if init_i is None else builtin_base_()
+            except (TypeError, ValueError) as exc:
+                raise ExcRaised(Ref(f'builtin:{type(exc).__name__}'))
         if any(b == 'ext:typing.NamedTuple' for b in self.a.res.base_refs(ref)):
             names_, defaults_ = [], {}
             for m_, cnode_ in reversed(self.a.res.mro(ref)):
@@ -1774,6 +1871,21 @@ class Interp:
                         inst.set(st.targets[0].attr, bound[st.value.id])
         return inst
 
+    def _builtin_container_base(self, ref):
+        """dict / list / set when the package class (transitively) subclasses that builtin."""
+        seen_, todo_ = set(), [ref]
+        while todo_:
+            r_ = todo_.pop()
+            if r_ in seen_:
+                continue
+            seen_.add(r_)
+            for b_ in self.a.res.base_refs(r_):
+                if b_ in ('builtin:dict', 'builtin:list', 'builtin:set'):
+                    return {'builtin:dict': dict, 'builtin:list': list, 'builtin:set': set}[b_]
+                if b_.startswith('pkg:'):
+                    todo_.append(b_)
+        return None
+
     def _super_call(self, attr, args, kwargs):
         """super().attr(...) inside a method of def_class, for the run-time class of the receiver."""
         if self.def_class is None or self.first_param is None or self.first_param not in self.env:
@@ -1824,7 +1936,7 @@ class Interp:
             if '.' in qual:
                 continue
             for x in ast.walk(fnode):
-                if isinstance(x, ast.Subscript) and isinstance(x.ctx, ast.Store) and isinstance(x.value, ast.Name) and x.value.id == name:
+                if isinstance(x, ast.Name) and x.id == name and name not in {a_.arg for a_ in fnode.args.args}:
                     writers[qual] = fnode
         if not writers:
             return
@@ -1832,16 +1944,22 @@ class Interp:
             for node in om.tree.body:
                 if isinstance(node, (ast.ClassDef, ast.FunctionDef)):
                     for d in reversed(node.decorator_list):
-                        if isinstance(d, (ast.Name, ast.Attribute)):
-                            r = self.a.res.resolve(d, om)
+                        t = d.func if isinstance(d, ast.Call) else d
+                        if isinstance(t, (ast.Name, ast.Attribute)):
+                            r = self.a.res.resolve(t, om)
                             if r and r.startswith(f'pkg:{mod}:') and r.split(':', 2)[2] in writers:
                                 target = Ref(f'pkg:{om.name}:{node.name}')
-                                sub = Interp(self.a, m, {}, isinstance_fn=self.isinstance_fn, call_models=self.call_models,
-                                             inline_pkg=True, depth=self.depth + 1, world=self.world)
                                 try:
-                                    sub._inline(m, writers[r.split(':', 2)[2]], [target], {})
-                                except (Unmodelled, ExcRaised):
-                                    raise Unmodelled(f'import-time initialisation of {gref} by @{r}')
+                                    if isinstance(d, ast.Call):
+                                        sub = Interp(self.a, om, {}, isinstance_fn=self.isinstance_fn, call_models=self.call_models,
+                                                     inline_pkg=True, depth=self.depth + 1, world=self.world)
+                                        sub.invoke(sub.ev(d), [target], {})
+                                    else:
+                                        sub = Interp(self.a, m, {}, isinstance_fn=self.isinstance_fn, call_models=self.call_models,
+                                                     inline_pkg=True, depth=self.depth + 1, world=self.world)
+                                        sub._inline(m, writers[r.split(':', 2)[2]], [target], {})
+                                except (Unmodelled, ExcRaised) as exc:
+                                    raise Unmodelled(f'import-time initialisation of {gref} by @{r} on {node.name}: {exc}')
 
     def _with(self, s, i):
         """with-statement, item i onwards. A context manager written as a generator (@contextmanager) is interpreted:
@@ -2076,6 +2194,43 @@ def _global(self, gref, n):
     return val
 
 
+def _copy_value(self, v, deep, memo):
+    """copy.copy / copy.deepcopy of a value of the abstract heap (classes defining __copy__ / __deepcopy__ are not modelled)."""
+    if id(v) in memo:
+        return memo[id(v)]
+    if _immutable(v) or isinstance(v, (BoundMethod, LambdaVal, Closure, RawFunc)) or callable(v) and not isinstance(v, PyModel):
+        return v
+    if isinstance(v, Rec):
+        cref = v.f.get('cls')
+        if isinstance(cref, str) and any(self._find_method(cref, d_)[1] is not None for d_ in ('__copy__', '__deepcopy__', '__reduce__', '__getstate__')):
+            raise Unmodelled('copy of an instance whose class customises copying')
+        out = Rec()
+        memo[id(v)] = out
+        for k_, x_ in v.f.items():
+            out.f[k_] = _copy_value(self, x_, True, memo) if deep else (type(x_)(x_) if k_ == '__native__' else x_)
+        return out
+    if isinstance(v, (list, set, dict, tuple)):
+        if not deep:
+            import copy as _c
+            return _c.copy(v)
+        if isinstance(v, dict):
+            out = type(v)() if type(v) is dict else dict()
+            memo[id(v)] = out
+            for k_, x_ in v.items():
+                out[_copy_value(self, k_, True, memo)] = _copy_value(self, x_, True, memo)
+            return out
+        if isinstance(v, tuple):
+            return tuple(_copy_value(self, x_, True, memo) for x_ in v)
+        out = type(v)()
+        memo[id(v)] = out
+        for x_ in v:
+            (out.append if isinstance(out, list) else out.add)(_copy_value(self, x_, True, memo))
+        return out
+    if isinstance(v, _PURE_TYPES):
+        return v
+    raise Unmodelled(f'copy of {type(v).__name__}')
+
+
 def _has_call_ref(v, depth=0):
     """Does a folded container hold the folder's symbolic stand-in for the result of a library call (Ref('ext:f(...)'))?"""
     if isinstance(v, Ref):
@@ -2120,9 +2275,14 @@ def _global_uncached(self, gref, n):
             val = Interp(self.a, gm_, {}, world=self.world, call_models=self.call_models, inline_pkg=True).ev(gnode_)
             if isinstance(val, Rec):
                 self.world.globals[gref] = val
+                if '__native__' in val.f:
+                    self._module_init(gref, val)        # a registry object: what the decorators of the package stored at import time
                 return val
-        except (Unmodelled, ExcRaised):
+        except ExcRaised:
             pass
+        except Unmodelled as exc:
+            if 'import-time initialisation' in str(exc):
+                raise
     if isinstance(gnode_, ast.Subscript):
         try:
             val = Interp(self.a, gm_, {}, world=self.world, call_models=self.call_models).ev(gnode_)
